@@ -191,12 +191,19 @@ impl crate::check::Scene for ViaRegister {
 fn make_case(progs: &[Vec<L>], mailbox: Mailbox, work: Work, interval_with: bool, stopper: bool, bound: Option<u32>) -> Case {
     let ctx_made = CTX_MADE.with(|c| c.get());
     let mut clients = vec![];
+    let mut own_given = false;
     for (c, p) in progs.iter().enumerate() {
         let mut ops: Vec<Op> = p.iter().enumerate().map(|(i, l)| to_op(*l, msg_id(c, i))).collect();
         if ctx_made {
             ops.insert(0, Op::AdoptCtx);
         }
-        clients.push(ClientSpec { init: FULL.to_vec(), ops });
+        let mut init = FULL.to_vec();
+        // (the one owner goes to the first client that sends through it)
+        if !own_given && p.contains(&L::SendOwn) {
+            init.push(HInit::Own);
+            own_given = true;
+        }
+        clients.push(ClientSpec { init, ops });
     }
     if stopper {
         // a client that stops the actor while senders may be parked
@@ -316,6 +323,15 @@ fn plain_cases(tier: Tier) -> Vec<Case> {
                 v.push(make_case(&[a.clone()], mb, work, true, false, None));
                 v.push(make_case(&[a.clone(), vec![L::CallAddr]], mb, work, true, true, None));
             }
+        }
+    }
+    // an OwningAddr sends like the address it wraps: it waits for room
+    for &mb in &mbs {
+        for &work in &works {
+            for p in [vec![L::SendOwn, L::SendOwn, L::SendOwn], vec![L::SendOwn, L::SendAddr, L::SendOwn, L::SendSnd]] {
+                v.push(make_case(&[p], mb, work, false, false, None));
+            }
+            v.push(make_case(&[vec![L::SendOwn, L::SendOwn], vec![L::SendAddr, L::CallAddr]], mb, work, false, false, None));
         }
     }
     // the builder's register() terminal keeps the mailbox it was given
